@@ -1,7 +1,7 @@
 (* Extraction of the executable Table model for the correspondence check.
    Directives in force: those of ExtrOcamlBasic only; N, positive, nat stay inductive. *)
 From Coq Require Import NArith List.
-From Blue Require Import Table.Model Table.ModelBloom Table.ModelSst Table.ModelWire Table.Inst.
+From Blue Require Import Table.Model Table.ModelBloom Table.ModelSst Table.ModelWire Table.Inst Table.ModelFile Table.InstFile.
 Require Import ExtrOcamlBasic.
 Extraction Language OCaml.
-Extraction "../ocaml/table/gen_table.ml" run_block_case run_sst_case run_multi_case N.of_nat N.to_nat.
+Extraction "../ocaml/table/gen_table.ml" run_block_case run_sst_case run_multi_case run_file_case N.of_nat N.to_nat.
